@@ -304,6 +304,9 @@ impl Ctx {
         S: Strategy<Value = C>,
         C: Clone + std::fmt::Debug + Hash + Serialize + DeserializeOwned + Send,
     {
+        if std::env::var("VERIF_ONLY_PART").map(|p| p != part).unwrap_or(false) {
+            return; // development aid: run a single part
+        }
         if let Some(r) = self.replay.clone() {
             if r.part != part {
                 return;
